@@ -797,7 +797,7 @@ func TestVerif_C10(t *testing.T) {
 	run.Extra("phase_seconds", map[string]float64{"setup": t1.Sub(t0).Seconds(), "histories": time.Since(t1).Seconds()})
 	run.Extra("histories", len(jobs.list))
 	run.Extra("max_set_cookie_line_bytes", atomic.LoadInt64(&c10MaxLine))
-	run.Finish(int64(run.Env.Pick(15000, 150000)), run.Env.Pick(120, 200))
+	run.Finish(int64(run.Env.Pick(25000, 280000)), run.Env.Pick(550, 700))
 }
 
 // c10Singles: one save on a fresh jar for every size; base fields (exact thresholds) and random fields.
@@ -830,9 +830,9 @@ func c10Pairs(jobs *c10Jobs, run *vfRun, cfg *c10Cfg, p *vfProxy, st *c10Stream,
 	rng := rand.New(rand.NewSource(run.Env.Seed*7907 + int64(ci)))
 	sizes := th.pickSizes(rng, run.Env.Pick(1, 12))
 	if cfg.Heavy {
-		sizes = th.pickSizes(rng, run.Env.Pick(10, 0))
-		if run.Env.Thorough() {
-			sizes = th.allSizes()
+		sizes = th.pickSizes(rng, run.Env.Pick(10, 50))
+		if run.Env.Thorough() && (cfg.Label == "cookie/default/len13" || cfg.Label == "cookie/name/len256" || cfg.Store == "redis") {
+			sizes = th.allSizes() // every size before every size
 		}
 	}
 	n := len(sizes)
@@ -861,7 +861,7 @@ func c10Pairs(jobs *c10Jobs, run *vfRun, cfg *c10Cfg, p *vfProxy, st *c10Stream,
 // c10Sequences: exhaustive sequences over size classes + clear, and seeded random sequences.
 func c10Sequences(jobs *c10Jobs, run *vfRun, cfg *c10Cfg, p *vfProxy, st *c10Stream, th c10Thr, ci int) {
 	maxLen := run.Env.Pick(4, 6)
-	// classes: 1 cookie, 2, 3, 4 cookies (at / just past each threshold), big (thorough), and clear (-1)
+	// classes: 1 cookie, 2, 3, 4 cookies (at / just past each threshold) and clear (-1); the 12 kB class is in the random sequences
 	classes := []int{500, th.T[0], th.T[1] + 3, th.T[2] + 1, -1}
 	var seqs [][]int
 	if cfg.Heavy {
@@ -870,8 +870,6 @@ func c10Sequences(jobs *c10Jobs, run *vfRun, cfg *c10Cfg, p *vfProxy, st *c10Str
 			l = 5
 			if cfg.Label == "cookie/default/len13" {
 				l = 6
-			} else {
-				classes = []int{500, th.T[0], th.T[1] + 3, th.T[2] + 1, 12000, -1}
 			}
 		}
 		var rec func(prefix []int)
@@ -891,9 +889,9 @@ func c10Sequences(jobs *c10Jobs, run *vfRun, cfg *c10Cfg, p *vfProxy, st *c10Str
 	}
 	rng := rand.New(rand.NewSource(run.Env.Seed*6151 + int64(ci)*13))
 	pick := th.pickSizes(rng, 8)
-	nRand := run.Env.Pick(30, 400)
+	nRand := run.Env.Pick(30, 300)
 	if cfg.Heavy {
-		nRand = run.Env.Pick(150, 3000)
+		nRand = run.Env.Pick(150, 2000)
 	}
 	for k := 0; k < nRand; k++ {
 		l := 3 + rng.Intn(maxLen-2)
